@@ -230,6 +230,22 @@ fn check_raw(ctx: &mut Ctx, lit: &str) {
             }
             Err(e) => ctx.fail("dom-rawnumber-rejects", format!("{:?}: {}", doc, e)),
         }
+        // the same literal arriving through a reader in pieces (pipes, sockets, `Chain`: a short
+        // read is not the end): every number type and the DOM read what `from_str` reads
+        {
+            use std::io::Read as _;
+            let chunk = 1 + lit.len() % 5;
+            let cut = lit.len() / 2;
+            let a = sonic_rs::from_reader::<_, f64>(crate::mon::common::ChunkReader { data: lit.as_bytes(), chunk }).map(|x| x.to_bits()).map_err(|_| ());
+            let b = sonic_rs::from_str::<f64>(lit).map(|x| x.to_bits()).map_err(|_| ());
+            let c = sonic_rs::from_reader::<_, Value>(lit.as_bytes()[..cut].chain(&lit.as_bytes()[cut..])).map(|v| sonic_rs::to_string(&v).unwrap_or_default()).map_err(|_| ());
+            let d = sonic_rs::from_str::<Value>(lit).map(|v| sonic_rs::to_string(&v).unwrap_or_default()).map_err(|_| ());
+            let e = sonic_rs::from_reader::<_, RawNumber>(crate::mon::common::ChunkReader { data: lit.as_bytes(), chunk: 1 }).map(|r| r.as_str().to_string()).map_err(|_| ());
+            let f = sonic_rs::from_str::<RawNumber>(lit).map(|r| r.as_str().to_string()).map_err(|_| ());
+            if a != b || c != d || e != f {
+                ctx.fail("reader-in-pieces-differs", format!("{:?} read through a reader that delivers it in pieces: f64 {:?} vs {:?}, Value {:?} vs {:?}, RawNumber {:?} vs {:?}", lit, a, b, c, d, e, f));
+            }
+        }
         // raw-number mode together with the lossy option, chosen in either order
         for (name, r) in [
             ("use_rawnumber().utf8_lossy()", sonic_rs::Deserializer::from_slice(doc.as_bytes()).use_rawnumber().utf8_lossy().deserialize::<Value>()),
